@@ -109,7 +109,8 @@ def run(repo, rep, tier):
     # token: stripping it keeps the position
     L.borrow(repo, rep, "R13.5", "C11", c11._algebra, ("strip", "lstrip"))
     # a fallback spelled data-tal-on-error is an ordinary statement
-    L.borrow(repo, rep, "R13.3", "C18", c18._keyed, ("convert-first",))
+    L.borrow(repo, rep, "R13.3", "C18", c18._keyed,
+             ("convert-first", "data-name-keeps-hyphens"), minimum=2)
     # 'the output after the element is untouched': a matched tal:case that
     # fails under its own on-error has still settled its switch -- the
     # marker is written before the body runs (C01 owns the skeleton rules)
@@ -444,6 +445,7 @@ def run(repo, rep, tier):
 
     # R13.4 plumbing
     _plumbing(repo, rep)
+    L.state_rule(repo, rep)
 
 
 def _static_filter(test):
